@@ -42,6 +42,7 @@ var specs = map[string]*propSpec{
 		Rule: "case idx -> battle of 1..4 warriors of 'lively hostile' code (SPL/MOV/JMP/DJN heavy, DAT and division by zero seeded, 1/5 uniformly random forms), M 3..48, P 1..8, C 1..300, " +
 			"random (overlapping, wrapping) load offsets and entry points, 1/6 with read/write limits < M. Monitor (a): a Reporter records executed (warrior,pc) pairs; after EVERY cycle these, RunCycle's return value, " +
 			"core, queues, alive flags, living count and CycleCount are compared with the reference scheduler. Monitor (b): a second real simulator driven by one Run() call must end in the same state. " +
+			"One case in 401 is a LONG battle of the repository's own warriors (plus a splitter) on a core of 8000 with process limits 8000/64/7 and up to 80000 cycles: executed PCs and RunCycle's return value compared every cycle, full state every 997 cycles and at the end. " +
 			"non-trivial = battle with a multi-warrior death, a mid-cycle decision leaving later warriors unexecuted, a push dropped at the process limit, the cycle limit reached with several alive, or 3-4 warriors; " +
 			"distinct by (warrior count, event set, M/8, P)",
 		Assumptions: append([]string{
